@@ -14,7 +14,7 @@ else
   (cd $D && patch -p1 -s < "$PATCH") || { echo "SELFTEST $P $PATCH: patch did not apply"; rm -rf $D; exit 3; }
 fi
 START=$(date +%s)
-OUT=$(cd /verif && VERIF_REPO=$D VERIF_FOUND_DIR=$D/found VERIF_EVIDENCE_DIR=$D/evidence ./check $P --tier $TIER 2>&1); RC=$?
+OUT=$(cd /verif && VERIF_REPO=$D VERIF_FOUND_DIR=$D/found VERIF_EVIDENCE_DIR=$D/evidence VERIF_BUILD_DIR=$D/build ./check $P --tier $TIER 2>&1); RC=$?
 END=$(date +%s)
 echo "SELFTEST $P $PATCH tier=$TIER rc=$RC wall=$((END-START))s $(echo "$OUT" | grep -c '^VIOLATION') violation line(s)"
 echo "$OUT" | grep -A2 '^VIOLATION' | head -8 | cut -c1-300
